@@ -397,7 +397,43 @@ theorem hsOfKraus_row0 (B : Basis K d) (z : Fin (d * d)) (s : K) (hB : ONH0 B z 
   by_cases h : b = z
   · simp only [h, if_true]; rw [← mul_assoc]; exact hB.snorm
   · simp [h]
+
+/-- C17 "Hamiltonian and Lindbladian agree" on the executed `lindOfHamiltonian` (the HS matrix the Lindbladian catalogue
+builds from a Hamiltonian): for Hermitian `H` it represents `ρ ↦ −i[H, ρ]`, its first row vanishes (trace-annihilating), in
+every dimension and for every basis with `B_0 = s·1`. -/
+theorem lindOfHamiltonian_spec (B : Basis K d) (h : Mat K d d) (hh : h.toMᴴ = h.toM) (z b : Fin (d * d)) (s : K)
+    (hz : ∀ i j, (B.get z).get i j = if i = j then s else 0) (rho : Mat K d d) :
+    (act (cbFromH h) rho).toM = (-(ii : K)) • (h.toM * rho.toM - rho.toM * h.toM) ∧
+      (lindOfHamiltonian B h).get z b = 0 := by
+  have hact : ∀ r : Mat K d d, (act (cbFromH h) r).toM = (-(ii : K)) • (h.toM * r.toM - r.toM * h.toM) := by
+    intro r
+    have := act_hPart h r
+    rw [hh] at this
+    exact this
+  refine ⟨hact rho, ?_⟩
+  unfold lindOfHamiltonian
+  rw [toHerm_row0 B _ z b s hz, hact, Matrix.trace_smul, Matrix.trace_sub, Matrix.trace_mul_comm, sub_self, smul_zero,
+    mul_zero]
+
+/-- C17 "pure-state vectors, matrices and coefficient vectors of a POVM agree": the executed `povmOfVectors` maps each vector
+to `|v⟩⟨v|`; for the columns of a unitary the elements are PSD and sum to 1 (`povm_of_onb_physical`), and each element is
+recovered from its coefficient vector (`density_coef_roundtrip`). -/
+theorem povmOfVectors_spec (B : Basis K d) (z : Fin (d * d)) (s : K) (hB : ONH0 B z s) (vs : List (Vec K d)) :
+    (povmOfVectors vs).map Mat.toM = vs.map (fun v => vecMulVec (fun i => v.get i) (star fun i => v.get i)) ∧
+      ∀ m ∈ povmOfVectors vs, densityOfCoef B (coefVec B m) = m := by
+  constructor
+  · simp only [povmOfVectors, List.map_map]
+    apply List.map_congr_left; intro v _
+    exact pureDensity_eq v
+  · intro m _
+    exact (density_coef_roundtrip B z s hB m (Vec.ofFn fun _ => 0)).1
 end descriptions
+
+example := lindOfHamiltonian_spec basisPauli matX matX_herm ⟨0, by decide⟩ ⟨3, by decide⟩ sP
+  (fun i j => by have := Bm_basisPauli ⟨0, by decide⟩ i j; simp only [Bm, Mat.toM_apply] at this; rw [this]
+                 fin_cases i <;> fin_cases j <;> simp [sigma]) matX
+example := povmOfVectors_spec basisPauli _ sP onh0_basisPauli
+  [Vec.ofFn fun i : Fin 2 => if i.val = 0 then (1 : ℂ) else 0, Vec.ofFn fun i : Fin 2 => if i.val = 0 then (0 : ℂ) else 1]
 
 /-- non-degenerate instances: Pauli basis, `ρ = X`; Kraus set `{X}` (unitary, so `Σ KᴴK = 1`) -/
 example := density_coef_roundtrip basisPauli _ sP onh0_basisPauli matX (Vec.ofFn fun a => (a.val : ℂ))
